@@ -339,6 +339,7 @@ type result struct {
 	calls      []*call
 	snap       tagsrv.Snapshot
 	hung       bool
+	idleCloses int
 	shutdownOK bool
 }
 
@@ -435,30 +436,33 @@ func classify(sc *scenario, victim *call, res *result, byID map[string]*call) (k
 	if victim.Mismatch == "panic" {
 		return "panic", "panic inside the call"
 	}
-	prior := map[string]bool{}
+	// nearest earlier request on a connection that carried the victim's request whose call ended abnormally
+	early, tmo, failed := "", "", ""
+	best := 1 << 30
 	for _, cn := range res.snap.Conns {
 		for i, id := range cn.IDs {
 			if id != victim.ID {
 				continue
 			}
-			for _, p := range cn.IDs[:i] {
-				prior[p] = true
+			for j := i - 1; j >= 0 && i-j < best; j-- {
+				pc := byID[cn.IDs[j]]
+				if pc == nil {
+					continue
+				}
+				e, t, f := "", "", ""
+				switch {
+				case pc.Stream != "" && pc.EarlyStop:
+					e = pc.ID
+				case strings.HasPrefix(pc.Err, "timeout") || strings.HasPrefix(pc.Err, "stream timeout"):
+					t = pc.ID
+				case pc.Err != "":
+					f = pc.ID
+				default:
+					continue
+				}
+				best, early, tmo, failed = i-j, e, t, f
+				break
 			}
-		}
-	}
-	early, tmo, failed := "", "", ""
-	for p := range prior {
-		pc := byID[p]
-		if pc == nil {
-			continue
-		}
-		switch {
-		case pc.Stream != "" && pc.EarlyStop:
-			early = p
-		case strings.HasPrefix(pc.Err, "timeout") || strings.HasPrefix(pc.Err, "stream timeout"):
-			tmo = p
-		case pc.Err != "":
-			failed = p
 		}
 	}
 	fake := strings.HasPrefix(victim.GotID, "fake.") || strings.HasPrefix(victim.GotID, "interim.")
@@ -505,7 +509,7 @@ func TestC04(t *testing.T) {
 	var totalCalls, judged int64
 	otherErrs := map[string]int{}
 	var cmu sync.Mutex
-	mon.Parallel(n, 24, func(i int) {
+	mon.Parallel(n, 48, func(i int) {
 		if !r.Want(i) {
 			return
 		}
@@ -528,7 +532,7 @@ func TestC04(t *testing.T) {
 		}
 		// what the server saw
 		maxDepth, reusedConns, batches, unreadAtReq := 0, 0, 0, 0
-		afterEarly, afterTmo := 0, 0
+		afterEarly, afterTmo, unreadNonPipe := 0, 0, 0
 		for _, cn := range res.snap.Conns {
 			if len(cn.IDs) > maxDepth {
 				maxDepth = len(cn.IDs)
@@ -540,11 +544,14 @@ func TestC04(t *testing.T) {
 			for j, id := range cn.IDs {
 				if j > 0 && cn.Unread[j] > 0 {
 					unreadAtReq++
+					if sc.kind != kindPipeline {
+						unreadNonPipe++
+					}
 				}
 				if j+1 < len(cn.IDs) {
 					if pc := byID[id]; pc != nil && sc.kind != kindPipeline {
-						if pc.Stream != "" && pc.EarlyStop {
-							afterEarly++
+						if pc.Stream != "" && pc.EarlyStop && cn.Unread[j+1] > 0 {
+							afterEarly++ // the next request went out on a connection that still held unread body bytes
 						}
 						if strings.HasPrefix(pc.Err, "timeout") {
 							afterTmo++
@@ -638,7 +645,8 @@ func TestC04(t *testing.T) {
 		r.Event("conns_reused", reusedConns)
 		r.Event("batched_writes", batches)
 		r.Event("requests_arrived_with_unread_response_bytes", unreadAtReq)
-		r.Event("hostclient_request_followed_early_closed_stream_on_conn", afterEarly)
+		r.Event("hostclient_requests_arrived_with_unread_response_bytes", unreadNonPipe)
+		r.Event("hostclient_request_reused_conn_of_early_closed_stream_with_unread_bytes", afterEarly)
 		r.Event("hostclient_request_followed_timed_out_call_on_conn", afterTmo)
 		r.Event("mismatches", mism)
 		cmu.Lock()
